@@ -186,16 +186,20 @@ def pitch_instances(r):
     nfr = r.randrange(2, 12)
     tm = np.arange(nfr) / 16.0
     rfr, efr = [], []
+    # a common tuning offset keeps every pair distance the same (cross pairs stay
+    # integer +- deviation) while moving the references off the A440 grid
+    tuning = r.choice([0.0, 0.0, 0.3, 0.4, 0.17])
     for _ in range(nfr):
         # integer-semitone reference pitches: with deviations from DEVS no cross
         # pair inside a frame can sit exactly on the 0.5-semitone window
-        ms = [float(r.randrange(50, 80)) for _ in range(r.choice([0, 1, 2, 3]))]
+        ms = [float(r.randrange(50, 80)) + tuning
+              for _ in range(r.choice([0, 1, 2, 3]))]
         rfr.append(gen.midi_to_hz(ms) if ms else np.array([]))
         es = [mm + r.choice(DEVS[:-4] + [12, -12]) for mm in ms if r.random() < 0.8]
         if r.random() < 0.3:
-            es.append(float(r.randrange(50, 80)) + 0.0625)
+            es.append(float(r.randrange(50, 80)) + 0.0625 + tuning)
         efr.append(gen.midi_to_hz(es) if es else np.array([]))
-    facm = r.choice([2.0, 0.5, 2.0 ** (1 / 12), 2.0 ** (-5 / 12)])
+    facm = r.choice([2.0, 0.5, 2.0 ** (1 / 12), 2.0 ** (-5 / 12), 2.0 ** (0.3 / 12), 1.37])
     ntp = ("mp", rfr, efr)
     out.append(pair("factor", "multipitch.metrics", (tm, rfr, tm.copy(), efr),
                     (tm, [f * facm for f in rfr], tm.copy(), [f * facm for f in efr]), {},
